@@ -184,6 +184,8 @@ def as_ts(v):
         return TS([v.value])
     if isinstance(v, (IntDec, Text, Rep, Block, PBlock, Placement, Payload, Cond, OpaqueS)):
         return TS([v])
+    if isinstance(v, (tuple, frozenset)) and all(isinstance(x, (str, int)) and not isinstance(x, bool) for x in v):
+        return TS([repr(tuple(v)) if isinstance(v, tuple) else "frozenset(" + repr(sorted(v, key=repr)) + ")"])      # only ever part of a message
     raise Unsupported(f"cannot render {v!r} into a string")
 
 
